@@ -36,6 +36,14 @@ impl<K, V> DashMap<K, V> {
     pub fn get(&self, key: &K) -> (r: Option<&V>)
         ensures match r { Some(v) => self@.contains_key(*key) && self@[*key] == *v, None => !self@.contains_key(*key) }
     { unimplemented!() }
+    /// `get_mut(&k)`: a guard through which the value under `k` may be changed; nothing else changes
+    #[verifier::external_body]
+    pub fn get_mut(&mut self, key: &K) -> (r: Option<&mut V>)
+        ensures
+            old(self)@.contains_key(*key) ==> r is Some && *r->Some_0 == old(self)@[*key]
+                && final(self)@ == old(self)@.insert(*key, *final(r->Some_0)),
+            !old(self)@.contains_key(*key) ==> r is None && final(self)@ == old(self)@,
+    { unimplemented!() }
     #[verifier::external_body]
     pub fn remove(&mut self, key: &K) -> (r: Option<(K, V)>)
         ensures
@@ -426,6 +434,7 @@ impl DependencyStack {
 pub struct Storage<Db: Database> {
     pub dependency_stack: DependencyStack,
     pub internal: InternalStorage<Db>,
+    pub top_level_calls: BoxcarVec<DerivedNodeId>,
 }
 /// `source_node.value.as_ref().as_any().downcast_ref::<T>().expect(..)`: the stored value at its type
 #[verifier::external_body]
@@ -435,7 +444,7 @@ impl<Db: Database> Storage<Db> {
 //@hsub "&self," => "&mut self,"
 //@contract
         ensures
-            final(self).internal == old(self).internal,
+            final(self).internal == old(self).internal, final(self).top_level_calls == old(self).top_level_calls,
             final(self).dependency_stack.0@.len() == old(self).dependency_stack.0@.len(),
             // the dependency is recorded as verified NOW, with the time the node was last updated
             old(self).dependency_stack.0@.len() > 0 ==> recorded(final(self).dependency_stack.0@.last(), old(self).dependency_stack.0@.last(),
@@ -651,7 +660,12 @@ pub fn invoke_with_dependency_tracking<Db: Database>(db: &mut Storage<Db>, deriv
         old(db).internal.dhas(derived_node_id) ==> final(db).internal.drev(derived_node_id) == old(db).internal.drev(derived_node_id),
         forall|i: int| 0 <= i < old(db).internal.derived_nodes@.len() ==> #[trigger] final(db).internal.derived_nodes@[i] == old(db).internal.derived_nodes@[i],
         final(db).internal.derived_nodes@.len() >= old(db).internal.derived_nodes@.len(),
+        final(db).internal.derived_node_dependencies@.len() >= old(db).internal.derived_node_dependencies@.len(),
         final(db).internal.current_epoch == old(db).internal.current_epoch,
+        // enter / release are balanced: the stack of running functions is what it was; calls made
+        // while a function runs are not top-level calls
+        final(db).dependency_stack == old(db).dependency_stack,
+        final(db).top_level_calls == old(db).top_level_calls,
 { unimplemented!() }
 
 impl<Db: Database> InternalStorage<Db> {
@@ -679,9 +693,16 @@ impl<Db: Database> InternalStorage<Db> {
             && final(db).internal.drev(derived_node_id).time_updated == old(db).internal.drev(derived_node_id).time_updated, //@O C02+C03.O-6_equal_value_keeps_node_and_time_updated
         // a changed value is stored in a NEW node (the old one is not overwritten)
         r.0 is Recalculated ==> final(db).internal.drev(derived_node_id).node_index.idx >= old(db).internal.derived_nodes@.len(), //@O C01+C03.O-6_changed_value_goes_to_a_new_node
+        // the dependencies recorded during THIS run replace the old list, whether or not the
+        // value changed (stale stamps would make the node look out of date again and again)
+        !(r.0 is Error) ==> final(db).internal.drev(derived_node_id).dependency_index.idx >= old(db).internal.derived_node_dependencies@.len(), //@O C02.O-6_rerun_replaces_the_dependency_list
         // time_verified is not touched here
         final(db).internal.drev(derived_node_id).time_verified == old(db).internal.drev(derived_node_id).time_verified,
         final(db).internal.dwf(),
+        final(db).internal.current_epoch == old(db).internal.current_epoch,
+        final(db).dependency_stack == old(db).dependency_stack,
+        final(db).top_level_calls == old(db).top_level_calls,
+        forall|i: int| 0 <= i < old(db).internal.derived_nodes@.len() ==> #[trigger] final(db).internal.derived_nodes@[i] == old(db).internal.derived_nodes@[i], //@O C03.O-6_reexecution_never_overwrites_a_node
 //@before "let mut occupied ="
             let ghost s1 = db.internal;
 //@before "(did_recalculate, tracked_dependencies.max_time_updated)"
@@ -706,10 +727,13 @@ pub fn invoke_for_new_node<Db: Database>(db: &mut Storage<Db>, derived_node_id: 
     requires old(db).internal.dwf(),
     ensures
         inner_fn_succeeds(old(db), derived_node_id) ==> r is Some,
+        forall|i: int| 0 <= i < old(db).internal.derived_nodes@.len() ==> #[trigger] final(db).internal.derived_nodes@[i] == old(db).internal.derived_nodes@[i],
         final(db).internal.dwf(),
         final(db).internal.dhas(derived_node_id) == old(db).internal.dhas(derived_node_id),
         final(db).internal.derived_nodes@.len() >= old(db).internal.derived_nodes@.len(),
         final(db).internal.current_epoch == old(db).internal.current_epoch,
+        final(db).dependency_stack == old(db).dependency_stack,
+        final(db).top_level_calls == old(db).top_level_calls,
 { unimplemented!() }
 
 //@fn rel=crates/pico/src/execute_memoized_function.rs name=create_derived_node vis=pub ret=r serves=C01,C02
@@ -733,6 +757,9 @@ pub fn invoke_for_new_node<Db: Database>(db: &mut Storage<Db>, derived_node_id: 
             && final(db).internal.drev(derived_node_id).time_verified == final(db).internal.current_epoch, //@O C01+C02.O-6_new_node_is_stamped_with_its_dependencies_and_verified_now
         final(db).internal.current_epoch == old(db).internal.current_epoch,
         final(db).internal.dwf(),
+        final(db).dependency_stack == old(db).dependency_stack,
+        final(db).top_level_calls == old(db).top_level_calls,
+        forall|i: int| 0 <= i < old(db).internal.derived_nodes@.len() ==> #[trigger] final(db).internal.derived_nodes@[i] == old(db).internal.derived_nodes@[i], //@O C03.O-6_creation_never_overwrites_a_node
 //@before "let node_index ="
     let ghost s1 = db.internal;
 //@after "db.internal.derived_node_id_to_revision.insert_mut("
@@ -743,6 +770,335 @@ pub fn invoke_for_new_node<Db: Database>(db: &mut Storage<Db>, derived_node_id: 
             if id2 != derived_node_id { assert(s1.dhas(id2)); }
         }
     }
+//@end
+
+// =====================================================================================
+// intern_ref (database.rs): a MemoRef to a value that lives inside another node's value
+// =====================================================================================
+/// RawPtr<T>: the address of the referenced value (raw_ptr.rs); only its identity matters
+#[verifier::reject_recursive_types(T)]
+pub struct RawPtr<T> { pub addr: usize, pub phantom: core::marker::PhantomData<T> }
+impl<T> Clone for RawPtr<T> { fn clone(&self) -> (r: Self) ensures r == *self { RawPtr { addr: self.addr, phantom: core::marker::PhantomData } } }
+impl<T> Copy for RawPtr<T> {}
+pub uninterp spec fn addr_of_ref<T>(v: &T) -> usize;
+/// identity of an interned reference: the hash of the VALUE, not of the address
+pub uninterp spec fn ref_id_spec<T>(v: &T) -> DerivedNodeId;
+impl<T> RawPtr<T> {
+    #[verifier::external_body]
+    pub fn from_ref(value: &T) -> (r: RawPtr<T>) ensures r.addr == addr_of_ref(value) { unimplemented!() }
+    /// `*a != b` (PartialEq on the address)
+    pub fn differs(&self, other: &RawPtr<T>) -> (r: bool) ensures r == (self.addr != other.addr) { self.addr != other.addr }
+}
+impl DynBox {
+    /// address held when the boxed value is a RawPtr
+    pub uninterp spec fn ptr(&self) -> usize;
+    /// `Box::new(raw_ptr)`
+    #[verifier::external_body]
+    pub fn from_ptr<T>(p: RawPtr<T>) -> (r: DynBox) ensures r.ptr() == p.addr { unimplemented!() }
+    /// `.as_ref().as_any().downcast_ref::<RawPtr<T>>().expect(..)`
+    #[verifier::external_body]
+    pub fn as_raw_ptr<T>(&self) -> (r: RawPtr<T>) ensures r.addr == self.ptr() { unimplemented!() }
+}
+impl<Db> InnerFn<Db> {
+    /// `InnerFn::new(|_, _| unreachable!(..))`: interned nodes are never executed
+    #[verifier::external_body]
+    pub fn never_executed() -> InnerFn<Db> { unimplemented!() }
+}
+/// `hash(value).into()` + `DerivedNodeId::new(param_id.inner().into(), [param_id])`
+#[verifier::external_body]
+pub fn ref_id<T>(value: &T) -> (r: DerivedNodeId) ensures r == ref_id_spec(value) { unimplemented!() }
+//@item rel=crates/pico/src/memo_ref.rs kind=enum name=MemoRefKind prefix="#[derive(Clone, Copy, PartialEq, Eq, Structural)] pub"
+//@item rel=crates/pico/src/memo_ref.rs kind=struct name=MemoRef prefix="#[verifier::reject_recursive_types(T)] pub"
+impl<T> MemoRef<T> {
+//@fn rel=crates/pico/src/memo_ref.rs name=new within="impl<T: 'static> MemoRef<T>" vis=pub ret=r serves=C03
+//@contract
+        ensures r.derived_node_id == derived_node_id, r.kind == MemoRefKind::Value,
+//@end
+//@fn rel=crates/pico/src/memo_ref.rs name=new_with_kind within="impl<T: 'static> MemoRef<T>" vis=pub ret=r serves=C03
+//@contract
+        ensures r.derived_node_id == derived_node_id, r.kind == kind,
+//@end
+}
+impl<Db: Database> InternalStorage<Db> {
+    /// address the node of `id` points at (when it holds a RawPtr)
+    pub open spec fn dptr(&self, id: DerivedNodeId) -> usize { self.derived_nodes@[self.drev(id).node_index.idx as int].value.ptr() }
+}
+
+//@fn rel=crates/pico/src/database.rs name=intern_ref vis=pub ret=r serves=C01,C03
+//@rw R2
+//@hsub "db: &Db," => "db: &mut Storage<Db>,"
+//@hsub "T: Clone \+ Hash \+ DynEq \+ 'static" => "T"
+//@sub "db\s*\.get_storage\(\)" => "db" n=*
+//@sub "let param_id = hash\(value\)\.into\(\);\s*let mut param_ids = init_param_vec\(\);\s*param_ids\.push\(param_id\);\s*let derived_node_id = DerivedNodeId::new\(param_id\.inner\(\)\.into\(\), param_ids\);" => "let derived_node_id = ref_id(value);" n=1
+//@sub "InnerFn::new\(\|_, _\| \{\s*unreachable!\([^)]*\)\s*;?\s*\}\)" => "InnerFn::never_executed()" n=1
+//@sub "Box::new\(new_ptr\)" => "DynBox::from_ptr(new_ptr)" n=*
+//@sub "existing_node\s*\.value\s*\.as_ref\(\)\s*\.as_any\(\)\s*\.downcast_ref::<RawPtr<T>>\(\)\s*\.unwrap\(\)" => "existing_node.value.as_raw_ptr::<T>()" n=1
+//@sub "\*existing_ptr != new_ptr" => "existing_ptr.differs(&new_ptr)" n=1
+//@sub "Vec::new\(\)" => "Vec::<Dependency>::new()" n=1
+//@inline rel=crates/pico/src/database.rs name=insert_derived_node within="impl<Db: Database> InternalStorage<Db>" recv="db.internal"
+//@inline rel=crates/pico/src/database.rs name=insert_dependencies within="impl<Db: Database> InternalStorage<Db>" recv="db.internal"
+//@inline rel=crates/pico/src/database.rs name=get_derived_node_from_derived_node_revision within="impl<Db: Database> InternalStorage<Db>" recv="db.internal"
+//@contract
+    requires old(db).internal.dwf(),
+    ensures
+        r.derived_node_id == ref_id_spec(value) && final(db).internal.dhas(r.derived_node_id),
+        // a reference interned for the first time is stamped with the current epoch
+        !old(db).internal.dhas(ref_id_spec(value)) ==>
+            final(db).internal.drev(ref_id_spec(value)).time_updated == old(db).internal.current_epoch
+            && final(db).internal.drev(ref_id_spec(value)).time_verified == old(db).internal.current_epoch
+            && final(db).internal.dptr(ref_id_spec(value)) == addr_of_ref(value), //@O C03.O-4_new_interned_reference_points_at_the_value
+        // re-interning an equal value NEVER moves time_updated (dependents are not re-run) ...
+        old(db).internal.dhas(ref_id_spec(value)) ==>
+            final(db).internal.drev(ref_id_spec(value)).time_updated == old(db).internal.drev(ref_id_spec(value)).time_updated, //@O C01+C03.O-4_reinterning_keeps_time_updated
+        // ... but unless it was already verified in this epoch, afterwards the reference points
+        // at the NEWEST address of the value (the old address may belong to a collected node)
+        old(db).internal.dhas(ref_id_spec(value)) && old(db).internal.drev(ref_id_spec(value)).time_verified != old(db).internal.current_epoch ==>
+            final(db).internal.dptr(ref_id_spec(value)) == addr_of_ref(value)
+            && final(db).internal.drev(ref_id_spec(value)).time_verified == old(db).internal.current_epoch, //@O C03.O-4_reinterned_reference_points_at_the_newest_address
+        // existing nodes are never overwritten (older MemoRefs keep reading their value)
+        forall|i: int| 0 <= i < old(db).internal.derived_nodes@.len() ==> #[trigger] final(db).internal.derived_nodes@[i] == old(db).internal.derived_nodes@[i], //@O C03.O-4_interning_never_overwrites_a_node
+        final(db).internal.current_epoch == old(db).internal.current_epoch,
+        final(db).internal.dwf(),
+        // C01: interning inside a running memoized function records the reference as one of its
+        // dependencies, stamped with the reference's (unchanged) time of last update
+        final(db).dependency_stack.0@.len() == old(db).dependency_stack.0@.len(),
+        old(db).dependency_stack.0@.len() > 0 ==> recorded(final(db).dependency_stack.0@.last(), old(db).dependency_stack.0@.last(),
+                Dependency { node_to: NodeKind::Derived(ref_id_spec(value)), time_verified_or_updated: old(db).internal.current_epoch },
+                final(db).internal.drev(ref_id_spec(value)).time_updated)
+            && final(db).dependency_stack.0@.drop_last() == old(db).dependency_stack.0@.drop_last(), //@O C01.O-7_interned_reference_is_recorded_as_a_dependency
+//@before "let new_ptr ="
+    let ghost s0 = db.internal;
+//@before "let existing_node ="
+                assert(s0.dhas(derived_node_id));
+//@before "db.register_dependency_in_parent_memoized_fn("
+    proof {
+        assert forall|id2: DerivedNodeId| #[trigger] db.internal.dhas(id2) implies
+            db.internal.drev(id2).node_index.idx < db.internal.derived_nodes@.len()
+            && db.internal.drev(id2).dependency_index.idx < db.internal.derived_node_dependencies@.len() by {
+            if id2 != derived_node_id { assert(s0.dhas(id2)); } else { if s0.dhas(derived_node_id) { } }
+        }
+    }
+//@end
+
+// intern_value: the value itself is stored in the node
+/// identity of an interned value: the hash of the (wrapped) value
+pub uninterp spec fn value_id_spec<T>(v: T) -> DerivedNodeId;
+/// `hash(&InternValueWrapper(value)).into()` + `DerivedNodeId::new(..)`; hands the value back
+#[verifier::external_body]
+pub fn value_id<T>(value: T) -> (r: (DerivedNodeId, T)) ensures r.0 == value_id_spec(value), r.1 == value { unimplemented!() }
+
+//@fn rel=crates/pico/src/database.rs name=intern_value vis=pub ret=r serves=C01,C03
+//@rw R2
+//@hsub "db: &Db," => "db: &mut Storage<Db>,"
+//@hsub "T: Clone \+ Hash \+ DynEq \+ 'static" => "T: DynEq"
+//@sub "db\s*\.get_storage\(\)" => "db" n=*
+//@sub "let wrapped_value = InternValueWrapper\(value\);\s*let param_id = hash\(&wrapped_value\)\.into\(\);\s*let value = wrapped_value\.0;\s*let mut param_ids = init_param_vec\(\);\s*param_ids\.push\(param_id\);\s*let derived_node_id = DerivedNodeId::new\(param_id\.inner\(\)\.into\(\), param_ids\);" => "let ghost value0 = value; let (derived_node_id, value) = value_id(value);" n=1
+//@sub "InnerFn::new\(\|_, _\| \{\s*unreachable!\([^)]*\)\s*;?\s*\}\)" => "InnerFn::never_executed()" n=1
+//@sub "Box::new\(value\)" => "DynBox::new(value)" n=1
+//@sub "Vec::new\(\)" => "Vec::<Dependency>::new()" n=1
+//@inline rel=crates/pico/src/database.rs name=insert_derived_node within="impl<Db: Database> InternalStorage<Db>" recv="db.internal"
+//@inline rel=crates/pico/src/database.rs name=insert_dependencies within="impl<Db: Database> InternalStorage<Db>" recv="db.internal"
+//@contract
+    requires old(db).internal.dwf(),
+    ensures
+        r.derived_node_id == value_id_spec(value) && final(db).internal.dhas(r.derived_node_id),
+        // a value interned for the first time is stored and stamped with the current epoch
+        !old(db).internal.dhas(value_id_spec(value)) ==>
+            final(db).internal.drev(value_id_spec(value)).time_updated == old(db).internal.current_epoch
+            && final(db).internal.drev(value_id_spec(value)).time_verified == old(db).internal.current_epoch
+            && final(db).internal.dval(value_id_spec(value)) == value.val(), //@O C03.O-4_new_interned_value_is_stored
+        // interning an equal value again keeps the node and its time_updated (dependents are
+        // not re-run, earlier MemoRefs stay valid) and marks it verified in this epoch
+        old(db).internal.dhas(value_id_spec(value)) ==>
+            final(db).internal.drev(value_id_spec(value)).time_updated == old(db).internal.drev(value_id_spec(value)).time_updated
+            && final(db).internal.drev(value_id_spec(value)).node_index == old(db).internal.drev(value_id_spec(value)).node_index
+            && final(db).internal.drev(value_id_spec(value)).time_verified == old(db).internal.current_epoch, //@O C01+C03.O-4_reinterned_value_keeps_node_and_time_updated
+        forall|i: int| 0 <= i < old(db).internal.derived_nodes@.len() ==> #[trigger] final(db).internal.derived_nodes@[i] == old(db).internal.derived_nodes@[i], //@O C03.O-4_interning_never_overwrites_a_node
+        final(db).internal.current_epoch == old(db).internal.current_epoch,
+        final(db).internal.dwf(),
+        final(db).dependency_stack.0@.len() == old(db).dependency_stack.0@.len(),
+        old(db).dependency_stack.0@.len() > 0 ==> recorded(final(db).dependency_stack.0@.last(), old(db).dependency_stack.0@.last(),
+                Dependency { node_to: NodeKind::Derived(value_id_spec(value)), time_verified_or_updated: old(db).internal.current_epoch },
+                final(db).internal.drev(value_id_spec(value)).time_updated)
+            && final(db).dependency_stack.0@.drop_last() == old(db).dependency_stack.0@.drop_last(), //@O C01.O-7_interned_value_is_recorded_as_a_dependency
+//@before "let current_epoch ="
+    let ghost s0 = db.internal;
+//@before "db.register_dependency_in_parent_memoized_fn("
+    proof {
+        assert forall|id2: DerivedNodeId| #[trigger] db.internal.dhas(id2) implies
+            db.internal.drev(id2).node_index.idx < db.internal.derived_nodes@.len()
+            && db.internal.drev(id2).dependency_index.idx < db.internal.derived_node_dependencies@.len() by {
+            if id2 != derived_node_id { assert(s0.dhas(id2)); } else { if s0.dhas(derived_node_id) { } }
+        }
+    }
+//@end
+
+// reading through a MemoRef (memo_ref.rs)
+/// what a node value holds at type T (`downcast_ref::<T>()`), and what a stored RawPtr<T>
+/// points at (`downcast_ref::<RawPtr<T>>().as_ref()`, unsafe: trusted, see C03 assumptions)
+pub uninterp spec fn held<T>(b: DynBox) -> T;
+pub uninterp spec fn target<T>(b: DynBox) -> T;
+#[verifier::external_body]
+pub fn downcast_held<'a, T>(b: &'a DynBox) -> (r: &'a T) ensures *r == held::<T>(*b) { unimplemented!() }
+#[verifier::external_body]
+pub fn downcast_target<'a, T>(b: &'a DynBox) -> (r: &'a T) ensures *r == target::<T>(*b) { unimplemented!() }
+impl<Db: Database> Storage<Db> {
+//@fn rel=crates/pico/src/database.rs name=get_derived_node_value_and_revision within="impl<Db: Database> StorageDyn for Storage<Db>" vis=pub ret=r serves=C01,C03
+//@hsub "Option<\(&dyn Any, DerivedNodeRevision\)>" => "Option<(&DynBox, DerivedNodeRevision)>"
+//@sub "\|\(node, revision\)\| \(node\.value\.as_ref\(\)\.as_any\(\), revision\)" => "|p: (&DerivedNode<Db>, DerivedNodeRevision)| -> (v: (&DynBox, DerivedNodeRevision)) ensures *v.0 == p.0.value, v.1 == p.1 { let (node, revision) = p; (&node.value, revision) }" n=1
+//@contract
+        requires self.internal.dwf(),
+        ensures (r is Some) == self.internal.dhas(id),
+            r is Some ==> r->Some_0.1 == self.internal.drev(id)
+                && *r->Some_0.0 == self.internal.derived_nodes@[self.internal.drev(id).node_index.idx as int].value, //@O C03.O-5_a_memo_ref_reads_the_node_its_revision_points_at
+//@end
+}
+impl<T> MemoRef<T> {
+//@fn rel=crates/pico/src/memo_ref.rs name=lookup_tracked within="impl<T: 'static> MemoRef<T>" vis=pub ret=r serves=C01,C03
+//@rw R2
+//@hsub "<'db>\(&self, db: &'db dyn DatabaseDyn\)" => "<'db, Db: Database>(&self, storage: &'db mut Storage<Db>)"
+//@sub "let storage = db\.get_storage_dyn\(\);" => "" n=1
+//@sub "value\s*\.downcast_ref::<T>\(\)\s*\.unwrap\(\)" => "downcast_held::<T>(value)" n=1
+//@sub "unsafe \{\s*value\s*\.downcast_ref::<RawPtr<T>>\(\)\s*\.unwrap\(\)\s*\.as_ref\(\)\s*\}" => "downcast_target::<T>(value)" n=1
+//@inline rel=crates/pico/src/database.rs name=register_dependency_in_parent_memoized_fn within="impl<Db: Database> Storage<Db>" recv="storage"
+//@inline rel=crates/pico/src/database.rs name=get_derived_node_value_and_revision within="impl<Db: Database> StorageDyn for Storage<Db>" recv="storage"
+//@sub "\|\(node, revision\)\| \(node\.value\.as_ref\(\)\.as_any\(\), revision\)" => "|p: (&DerivedNode<Db>, DerivedNodeRevision)| -> (v: (&DynBox, DerivedNodeRevision)) ensures *v.0 == p.0.value, v.1 == p.1 { let (node, revision) = p; (&node.value, revision) }" n=1
+//@contract
+        requires old(storage).internal.dwf(), old(storage).internal.dhas(self.derived_node_id),
+        ensures
+            final(storage).internal == old(storage).internal,
+            // C01: a tracked read through a MemoRef is recorded in the running memoized function
+            // with the time the referenced node was last UPDATED
+            final(storage).dependency_stack.0@.len() == old(storage).dependency_stack.0@.len(),
+            old(storage).dependency_stack.0@.len() > 0 ==> recorded(final(storage).dependency_stack.0@.last(), old(storage).dependency_stack.0@.last(),
+                    Dependency { node_to: NodeKind::Derived(self.derived_node_id), time_verified_or_updated: old(storage).internal.current_epoch },
+                    old(storage).internal.drev(self.derived_node_id).time_updated)
+                && final(storage).dependency_stack.0@.drop_last() == old(storage).dependency_stack.0@.drop_last(), //@O C01.O-7_tracked_lookup_is_recorded_with_the_time_of_last_update
+            // C03: the value read is the one in the node the revision points at NOW
+            self.kind == MemoRefKind::Value ==> *r == held::<T>(old(storage).internal.derived_nodes@[old(storage).internal.drev(self.derived_node_id).node_index.idx as int].value),
+            self.kind == MemoRefKind::RawPtr ==> *r == target::<T>(old(storage).internal.derived_nodes@[old(storage).internal.drev(self.derived_node_id).node_index.idx as int].value), //@O C03.O-5_lookup_follows_the_current_revision
+//@end
+}
+
+// =====================================================================================
+// execute_memoized_function: the decision reuse / re-execute / create (the real body)
+// =====================================================================================
+impl<Db: Database> InternalStorage<Db> {
+//@fn rel=crates/pico/src/database.rs name=node_verified_in_current_epoch within="impl<Db: Database> InternalStorage<Db>" vis=pub ret=r serves=C01,C02
+//@sub "\.map\(\|rev\| rev\.time_verified == self\.current_epoch\)" => ".map(|rev: &DerivedNodeRevision| -> (v: bool) ensures v == (rev.time_verified == self.current_epoch) { rev.time_verified == self.current_epoch })" n=1
+//@contract
+        requires self.dhas(derived_node_id),
+        ensures r == (self.drev(derived_node_id).time_verified == self.current_epoch),
+//@end
+//@fn rel=crates/pico/src/database.rs name=verify_derived_node within="impl<Db: Database> InternalStorage<Db>" vis=pub serves=C01,C02
+//@hsub "&self," => "&mut self,"
+//@sub "let mut rev = self" => "let rev = self" n=1
+//@contract
+        requires old(self).dhas(derived_node_id),
+        ensures
+            // only the time_verified stamp of this node changes
+            final(self).derived_node_id_to_revision@ == old(self).derived_node_id_to_revision@.insert(derived_node_id,
+                DerivedNodeRevision { time_verified: old(self).current_epoch, ..old(self).drev(derived_node_id) }), //@O C02.O-8_verifying_a_node_only_stamps_it_verified_now
+            final(self).derived_nodes == old(self).derived_nodes, final(self).derived_node_dependencies == old(self).derived_node_dependencies,
+            final(self).source_node_key_to_index == old(self).source_node_key_to_index, final(self).source_nodes == old(self).source_nodes,
+            final(self).current_epoch == old(self).current_epoch,
+//@end
+}
+impl DynBox {
+    /// the unique-access representation cannot keep `&node.value` alive across a call that
+    /// takes the storage by `&mut`; the real code can (interior mutability), and nodes are never
+    /// overwritten (O-4 / O-6), so a copy that is equal to the borrowed value stands for it
+    #[verifier::external_body]
+    pub fn snapshot(&self) -> (r: DynBox) ensures r == *self { unimplemented!() }
+}
+/// any_dependency_changed seen through the unique-access representation. The two result clauses
+/// are the postconditions PROVED above for the real any_dependency_changed (entry state); the
+/// frame (what re-executing dependencies may touch: other nodes only; stores only grow; the stack
+/// of running functions is balanced) is assumed, as for invoke_with_dependency_tracking
+#[verifier::external_body]
+pub fn any_dependency_changed_m<Db: Database>(db: &mut Storage<Db>, derived_node_id: DerivedNodeId) -> (r: bool)
+    requires old(db).internal.wf(), old(db).internal.dwf(), old(db).internal.dhas(derived_node_id),
+    ensures
+        forall|j: int| 0 <= j < old(db).internal.ddeps(derived_node_id).len()
+            && (#[trigger] old(db).internal.ddeps(derived_node_id)[j]).time_verified_or_updated != old(db).internal.current_epoch
+            && stale_source_dep(&old(db).internal, old(db).internal.ddeps(derived_node_id)[j]) ==> r,
+        (forall|j: int| 0 <= j < old(db).internal.ddeps(derived_node_id).len() ==>
+            (#[trigger] old(db).internal.ddeps(derived_node_id)[j]).time_verified_or_updated == old(db).internal.current_epoch) ==> !r,
+        final(db).internal.wf(), final(db).internal.dwf(),
+        final(db).internal.dhas(derived_node_id) && final(db).internal.drev(derived_node_id) == old(db).internal.drev(derived_node_id),
+        forall|i: int| 0 <= i < old(db).internal.derived_nodes@.len() ==> #[trigger] final(db).internal.derived_nodes@[i] == old(db).internal.derived_nodes@[i],
+        final(db).internal.derived_nodes@.len() >= old(db).internal.derived_nodes@.len(),
+        final(db).internal.derived_node_dependencies@.len() >= old(db).internal.derived_node_dependencies@.len(),
+        final(db).internal.current_epoch == old(db).internal.current_epoch,
+        final(db).dependency_stack == old(db).dependency_stack,
+        final(db).top_level_calls == old(db).top_level_calls,
+{ unimplemented!() }
+
+//@fn rel=crates/pico/src/execute_memoized_function.rs name=execute_memoized_function vis=pub ret=r rename=execute_memoized_function_body serves=C01,C02,C03
+//@rw R1 R2
+//@hsub "db: &Db," => "db: &mut Storage<Db>,"
+//@sub "db\s*\.get_storage\(\)" => "db" n=*
+//@sub "any_dependency_changed\(db, derived_node_id\)" => "any_dependency_changed_m(db, derived_node_id)" n=1
+//@sub "\{\s*if db\s*\.internal\s*\.node_verified_in_current_epoch" => "{ let prev_value_snapshot = derived_node.value.snapshot(); if db.internal.node_verified_in_current_epoch" n=1
+//@sub "derived_node\.value\.as_ref\(\)" => "&prev_value_snapshot" n=1
+//@sub "db\s*\.internal\s*\.verify_derived_node\(derived_node_id\);" => "db.internal.verify_derived_node(derived_node_id);" n=1
+//@contract
+    requires
+        old(db).internal.wf(), old(db).internal.dwf(),
+        forall|s: Storage<Db>| #[trigger] inner_fn_succeeds(&s, derived_node_id),
+    ensures
+        // "In all cases, the DerivedNode's verified_at will end up being the current epoch"
+        final(db).internal.dhas(derived_node_id)
+            && final(db).internal.drev(derived_node_id).time_verified == old(db).internal.current_epoch, //@O C01+C02.O-8_node_is_present_and_verified_now_after_the_call
+        // C02: a node already verified in this epoch is reused without any work
+        old(db).internal.dhas(derived_node_id) && old(db).internal.drev(derived_node_id).time_verified == old(db).internal.current_epoch ==>
+            r is ReusedMemoizedValue && final(db).internal == old(db).internal, //@O C02.O-8_node_verified_this_epoch_is_reused_without_any_work
+        // C02: no dependency to re-examine => same node, same time_updated, only verified now
+        old(db).internal.dhas(derived_node_id)
+            && (forall|j: int| 0 <= j < old(db).internal.ddeps(derived_node_id).len() ==>
+                (#[trigger] old(db).internal.ddeps(derived_node_id)[j]).time_verified_or_updated == old(db).internal.current_epoch) ==>
+            r is ReusedMemoizedValue
+            && final(db).internal.drev(derived_node_id).node_index == old(db).internal.drev(derived_node_id).node_index
+            && final(db).internal.drev(derived_node_id).time_updated == old(db).internal.drev(derived_node_id).time_updated
+            && final(db).internal.drev(derived_node_id).dependency_index == old(db).internal.drev(derived_node_id).dependency_index, //@O C02.O-8_unchanged_dependencies_mean_no_reexecution
+        // C01: a source dependency that changed since it was recorded => the function is run
+        // again (its dependency list is a fresh one) unless the node was verified in this epoch
+        old(db).internal.dhas(derived_node_id) && old(db).internal.drev(derived_node_id).time_verified != old(db).internal.current_epoch
+            && (exists|j: int| 0 <= j < old(db).internal.ddeps(derived_node_id).len()
+                && (#[trigger] old(db).internal.ddeps(derived_node_id)[j]).time_verified_or_updated != old(db).internal.current_epoch
+                && stale_source_dep(&old(db).internal, old(db).internal.ddeps(derived_node_id)[j])) ==>
+            r is Error || final(db).internal.drev(derived_node_id).dependency_index.idx >= old(db).internal.derived_node_dependencies@.len(), //@O C01.O-8_changed_source_dependency_leads_to_reexecution
+        // a node that does not exist is computed
+        !old(db).internal.dhas(derived_node_id) ==> r is Recalculated, //@O C01.O-8_missing_node_is_computed
+        // existing nodes are never overwritten, whatever happens
+        forall|i: int| 0 <= i < old(db).internal.derived_nodes@.len() ==> #[trigger] final(db).internal.derived_nodes@[i] == old(db).internal.derived_nodes@[i], //@O C03.O-8_executing_never_overwrites_a_node
+        // C01: the call is recorded in the function that made it, as verified now ...
+        final(db).dependency_stack.0@.len() == old(db).dependency_stack.0@.len(),
+        old(db).dependency_stack.0@.len() > 0 ==>
+            (exists|t: Epoch| recorded(final(db).dependency_stack.0@.last(), old(db).dependency_stack.0@.last(),
+                Dependency { node_to: NodeKind::Derived(derived_node_id), time_verified_or_updated: old(db).internal.current_epoch }, t))
+            && final(db).dependency_stack.0@.drop_last() == old(db).dependency_stack.0@.drop_last(), //@O C01.O-8_call_is_recorded_in_the_calling_function
+        // ... and, when nothing was executed, with the node's own time of last update
+        old(db).dependency_stack.0@.len() > 0 && r is ReusedMemoizedValue
+            && final(db).internal.drev(derived_node_id).dependency_index == old(db).internal.drev(derived_node_id).dependency_index ==>
+            recorded(final(db).dependency_stack.0@.last(), old(db).dependency_stack.0@.last(),
+                Dependency { node_to: NodeKind::Derived(derived_node_id), time_verified_or_updated: old(db).internal.current_epoch },
+                final(db).internal.drev(derived_node_id).time_updated), //@O C01.O-8_reused_node_is_recorded_with_its_time_of_last_update
+        // C03: an outermost call is remembered for the next garbage collection
+        old(db).dependency_stack.0@.len() == 0 ==> final(db).top_level_calls@ == old(db).top_level_calls@.push(derived_node_id), //@O C03.O-8_top_level_call_is_recorded_for_collection
+        old(db).dependency_stack.0@.len() > 0 ==> final(db).top_level_calls@ == old(db).top_level_calls@,
+        final(db).internal.current_epoch == old(db).internal.current_epoch,
+        final(db).internal.dwf(),
+//@before "let (did_recalculate, time_updated) ="
+    let ghost s0 = db.internal;
+//@after "db.internal.verify_derived_node(derived_node_id);"
+            proof {
+                assert forall|id2: DerivedNodeId| #[trigger] db.internal.dhas(id2) implies
+                    db.internal.drev(id2).node_index.idx < db.internal.derived_nodes@.len()
+                    && db.internal.drev(id2).dependency_index.idx < db.internal.derived_node_dependencies@.len() by {
+                    if id2 != derived_node_id { assert(s0.dhas(id2)); } else { assert(s0.dhas(derived_node_id)); }
+                }
+            }
 //@end
 
 } // verus!
